@@ -1,6 +1,6 @@
 //! C15 correspondence harness: process a synthesized dump (the C14 generator, plus hostile names
 //! and symbol files), call the real `ProcessState::print_json` (compact and pretty) and print
-//!   F <facts of the ProcessState's public fields>\tV <view of the real JSON, compact>\tJ <hex compact bytes>\tP <hex pretty bytes>\tC <f32::to_bits of each bit flip's confidence>
+//!   F <facts of the ProcessState's public fields>\tV <view of the real JSON, compact>\tJ <hex compact bytes>\tP <hex pretty bytes>\tC <f32::to_bits of each bit flip's confidence>\tQ <hex pretty view>
 //!
 //! case: <C14 case> X TN <k> {hex}*k MN <m> {hex}*m UN <u> {hex}*u SYM <q> {modidx hex}*q
 //!   TN thread names (N entry j uses TN[j % k]); MN / UN code_file of module / unloaded module i
@@ -19,8 +19,10 @@
 //!     | req <n|-> | trust <t> <f> <0..6> | lasterr <t> <u32> | mac <n> {<thread> <dialog_mode> <abort_cause> <module hex|-> <message hex|->
 //!     <signature hex|-> <backtrace hex|-> <message2 hex|->}*n | limit <hex name> <e|u|n> <e|u|n> <hex unit|-> | pid <n|->
 //!     | inl <t> <f> <hex function> <hex file|-> <line n|-> | nobootargs
-//!   V = the whole parsed document re-rendered by serde_json::to_string minus the top-level member soft_errors and the
-//!   confidence of every crash_info.possible_bit_flips element.
+//!   V = the whole parsed document re-rendered by serde_json::to_string minus the confidence of every
+//!   crash_info.possible_bit_flips element (and minus the top-level member soft_errors when the state's value holds a
+//!   float, which the model's JSON numbers do not have: fact `SOFT x`); Q = hex of the same value re-rendered by
+//!   serde_json::to_string_pretty (equal to P whenever nothing was removed).
 #[path = "c14.rs"]
 #[allow(dead_code)]
 mod c14;
@@ -245,6 +247,12 @@ fn facts(state: &minidump_processor::ProcessState) -> String {
             }
         }
     }
+    // soft_errors: the parsed MozSoftErrors stream, as the UTF-8 bytes of its compact rendering (x = it holds a float)
+    f.push(match &state.soft_errors {
+        None => "SOFT -".to_string(),
+        Some(v) if has_float(v) => "SOFT x".to_string(),
+        Some(v) => format!("SOFT h{}", hex(serde_json::to_string(v).unwrap().as_bytes())),
+    });
     f.push(format!("TH {}", state.threads.len()));
     for t in &state.threads {
         f.push(format!(
@@ -337,12 +345,23 @@ fn facts(state: &minidump_processor::ProcessState) -> String {
     f.join(" ")
 }
 
-/// The whole parsed document minus `soft_errors` (a serde_json::Value passed through from the dump) and the
-/// binary32 `confidence` of every reported bit flip (serde_json's float writer; compared separately, field C).
-fn view(v: &Value) -> Value {
+fn has_float(v: &Value) -> bool {
+    match v {
+        Value::Number(n) => !(n.is_u64() || n.is_i64()),
+        Value::Array(a) => a.iter().any(has_float),
+        Value::Object(m) => m.values().any(has_float),
+        _ => false,
+    }
+}
+
+/// The whole parsed document minus the binary32 `confidence` of every reported bit flip (serde_json's float writer;
+/// compared separately, field C) and minus `soft_errors` when the state's value holds a float (fact `SOFT x`).
+fn view(v: &Value, drop_soft: bool) -> Value {
     let mut o = v.clone();
-    if let Some(m) = o.as_object_mut() {
-        m.remove("soft_errors");
+    if drop_soft {
+        if let Some(m) = o.as_object_mut() {
+            m.remove("soft_errors");
+        }
     }
     if let Some(fl) = o.get_mut("crash_info").and_then(|ci| ci.get_mut("possible_bit_flips")).and_then(|x| x.as_array_mut()) {
         for b in fl {
@@ -605,13 +624,15 @@ fn run(line: &str) -> String {
     let mut pretty: Vec<u8> = vec![];
     state.print_json(&mut pretty, true).expect("print_json pretty");
     let v: Value = serde_json::from_slice(&compact).expect("serde_json parses compact output");
-    let vw = serde_json::to_string(&view(&v)).unwrap();
+    let vv = view(&v, state.soft_errors.as_ref().is_some_and(has_float));
+    let vw = serde_json::to_string(&vv).unwrap();
+    let vq = serde_json::to_string_pretty(&vv).unwrap();
     let conf = state
         .exception_info
         .as_ref()
         .map(|ei| ei.possible_bit_flips.iter().map(|b| b.confidence.map(|c| c.to_bits().to_string()).unwrap_or("-".into())).collect::<Vec<_>>().join(","))
         .unwrap_or_default();
-    format!("F {}\tV {}\tJ {}\tP {}\tC {}", facts(&state), vw, hex(&compact), hex(&pretty), conf)
+    format!("F {}\tV {}\tJ {}\tP {}\tC {}\tQ {}", facts(&state), vw, hex(&compact), hex(&pretty), conf, hex(vq.as_bytes()))
 }
 
 fn main() {
